@@ -199,6 +199,23 @@ def apply_fault(token, token2, fault, plan):
             except (KeyError, IndexError):
                 return None
         return _set(token, addr, rb.encode(new))
+    if k == "shift-boundary":
+        # paired length fault: move n octets across the boundary of two adjacent authenticated segments
+        a, b = tuple(fault["from"]), tuple(fault["to"])
+        try:
+            da, db = rb.decode(_get(token, a)), rb.decode(_get(token, b))
+        except (ValueError, KeyError, IndexError):
+            return None
+        n = fault["n"]
+        if fault["dir"] == "tail-to-head":       # end of a -> front of b
+            if n > len(da):
+                return None
+            da, db = da[:len(da) - n], da[len(da) - n:] + db
+        else:                                     # front of b -> end of a
+            if n > len(db):
+                return None
+            da, db = da + db[:n], db[n:]
+        return _set(_set(token, a, rb.encode(da)), b, rb.encode(db))
     if k == "respell":
         addr = ("c", 0) if isinstance(token, str) else ("protected",)
         hdr = json.loads(rb.decode(_get(token, addr)))
@@ -332,6 +349,13 @@ def enumerate_faults(token, plan, case):
                 yield {"kind": "truncate", "addr": list(addr), "seg": kind, "n": max(0, len(data) - 16)}
                 yield {"kind": "extend", "addr": list(addr), "seg": kind, "tail": [16] * 16}
         yield {"kind": "splice", "addr": list(addr), "seg": kind}
+    # paired faults across segment boundaries (iv|ciphertext, ciphertext|tag)
+    addrs = {kind: addr for addr, kind in seg_list}
+    for a, b in (("ciphertext", "tag"), ("iv", "ciphertext")):
+        if a in addrs and b in addrs:
+            for n in (1, 2, 4, 8, 12, 15, 16):
+                for d in ("tail-to-head", "head-to-tail"):
+                    yield {"kind": "shift-boundary", "from": list(addrs[a]), "to": list(addrs[b]), "n": n, "dir": d, "seg": f"{a}|{b}"}
     for i, s in enumerate(case["respell_seeds"]):
         yield {"kind": "respell", "style": ["whitespace", "reordered", "escaped", "mixed", "whitespace", "mixed"][i], "seed": s}
     if algs[0] in rjwe.DIRECT:
@@ -364,7 +388,7 @@ def fault_class(fault) -> str:
     k = fault["kind"]
     if k == "flip":
         return "flip"
-    if k in ("truncate", "extend", "nonempty-ek", "set"):
+    if k in ("truncate", "extend", "nonempty-ek", "set", "shift-boundary"):
         return "length"
     if k.startswith("epk"):
         return "epk"
